@@ -137,7 +137,8 @@ def _reverse_shard(w):
 def run_z3conf(report, tier, widths=None):
     widths = widths or ((1, 2, 3) if tier == "quick" else (1, 2, 3, 4))
     depth = 1 if tier == "quick" else 2
-    items = [(w, i, depth) for w in widths for i in range(4)]
+    # depth 2 only up to width 3 (at width 4 one AST costs 1024 ground evaluations and the shards run for half an hour)
+    items = [(w, i, depth if w <= 3 else 1) for w in widths for i in range(4)]
     for res in pmap(_shard, items):
         report.merge(res)
     for res in pmap(_reverse_shard, [16, 24, 32, 64]):
